@@ -201,6 +201,11 @@ func OpenWithHooks(path string, hooks MultiFileAppendableHooks, opts *Options) (
 	}
 
 	fileSize, _ := appendable.NewMetadata(currApp.Metadata()).GetInt(metaFileSize)
+	if fileSize <= 0 {
+		// the file size is used to locate the chunk holding a given offset
+		currApp.Close()
+		return nil, singleapp.ErrCorruptedMetadata
+	}
 
 	pCtx, pCancel := context.WithCancel(context.Background())
 	return &MultiFileAppendable{
